@@ -6,11 +6,15 @@ through the same history (test renderable `TR` of harness/c08.py) and compares, 
 model's paired run, the per-operation observations of both and the `_render_` call log;
 `ipair` does the same for `ImageIterator` over a real `BlockImage` of an animated GIF (frames
 identified by rendering each (frame, width) independently), counting `_render_image` calls;
+`draw` goes through the public drawing path — `Renderable.draw()` → `_animate_` — of a counting
+renderable in virtual time (the animation's `sleep` is a hook that raises KeyboardInterrupt at its
+m-th call; loops ∈ {negative = infinite, 1, 2, 3}, every cache form) and compares the per-frame
+`_render_` counts and the iterator's `_cached` with the model's (`Draw.initOf`, `Draw.history`);
 `decision` / `idecision` compare the `_cached` decisions (including `Renderable._animate_`'s
 forwarding rule `False if loops == 1 else cache`).
 Oracle (independent of Lean): cached run ≡ uncached run, no frame rendered twice by a cached
-iterator within a stretch of history without a settings change, `hash` injective on the render
-sizes met.
+iterator within a stretch of history without a settings change, no frame rendered twice during one
+draw() whose `cache` argument enables caching (any loop count), `hash` injective on the render sizes met.
 """
 from __future__ import annotations
 
@@ -130,6 +134,55 @@ def run_image_iter(n, rep, cache, width, seekpos, ops) -> str:
     return "ok " + " | ".join(obs) + f" # {count[0]}"
 
 
+class _StopDrawing(Exception):
+    pass
+
+
+def run_draw_real(n, loops, cache, m):
+    """`Renderable.draw()` of a counting renderable, in virtual time: the animation's `sleep` is
+    replaced by a hook that raises KeyboardInterrupt at its `m`-th call (how an animation is stopped;
+    `_animate_` swallows it).  → per-frame `_render_` counts, total, the iterator's `_cached`"""
+    import term_image.renderable._renderable as rmod
+    from term_image.padding import ExactPadding
+
+    c08.set_term(80, 30)
+    r = TR(n, 7, (2, 1))
+    cval = bool(cache[1]) if cache[0] == "b" else cache[1]
+    sleeps = [0]
+    seen = {}
+
+    def fake_sleep(_secs):
+        sleeps[0] += 1
+        if sleeps[0] >= m:
+            raise KeyboardInterrupt
+
+    orig_frd = RenderIterator._from_render_data_.__func__
+
+    def spy(cls, *a, **k):
+        it = orig_frd(cls, *a, **k)
+        seen["cached"] = bool(it._cached)
+        return it
+
+    real_sleep, real_stdout = rmod.sleep, sys.stdout
+    rmod.sleep = fake_sleep
+    RenderIterator._from_render_data_ = classmethod(spy)
+    sys.stdout = io.StringIO()
+    try:
+        try:
+            r.draw(None, ExactPadding(), loops=loops, cache=cval)
+        except KeyboardInterrupt:  # m == 0: interrupted outside `_animate_`'s own handler
+            pass
+        except Exception as e:  # noqa: BLE001
+            return "err " + type(e).__name__, r
+    finally:
+        sys.stdout = real_stdout
+        rmod.sleep = real_sleep
+        RenderIterator._from_render_data_ = classmethod(orig_frd)
+    offs = [int(x.split(" ")[0]) for x in r.calls]
+    counts = [offs.count(k) for k in range(n)]
+    return "ok " + " ".join(map(str, counts)) + f" # {len(offs)} {int(seen.get('cached', False))}", r
+
+
 def run_pair_real(c, ops):
     out = []
     logs = []
@@ -216,6 +269,8 @@ class C09(Property):
             m = i % 10
             if m in (0, 5, 8):
                 yield self.gen_ipair(rng, tier)
+            elif m in (6, 9):
+                yield self.gen_draw(rng)
             elif m == 3:
                 yield self.gen_decision(rng)
             else:
@@ -273,6 +328,20 @@ class C09(Property):
         nexts = sum(1 for o in ops if o[0] == "next")
         return Case(line, d, "ipair" if not malformed else "ipair-malformed", nexts > n and rep != 1)
 
+    def gen_draw(self, rng):
+        """the public drawing path: loops (negative = infinite, 1, 2, 3) × cache (True, False, below /
+        at / above the frame count, invalid) × where the animation is interrupted (k >= 2 full loops often)"""
+        n = rng.choice([2, 3, 3, 4, 5])
+        loops = rng.choice([-1, -1, -1, -3, 1, 2, 3])
+        cache = rng.choice([["b", 1], ["b", 1], ["b", 0], ["n", n], ["n", n + 1], ["n", 100], ["n", n - 1], ["n", 1]])
+        if rng.random() < 0.06:
+            cache = ["n", rng.choice([0, -1])]
+        full = rng.choice([2, 2, 3, 4])
+        m = max(1, rng.choice([full * n, full * n + 1, full * n - 1, rng.randrange(1, 4 * n + 2)]))
+        d = {"n": n, "loops": loops, "cache": cache, "m": m}
+        kind = "draw-infinite" if loops < 0 else f"draw-loops{loops}"
+        return Case(f"draw {n} {loops} {toks(cache)} {m}", d, kind, m + 1 > n and loops != 1)
+
     def gen_decision(self, rng):
         if rng.random() < 0.5:
             n = rng.choice([None, 2, 3, 5, 100, 101])
@@ -298,6 +367,8 @@ class C09(Property):
             a = run_image_iter(d["n"], d["rep"], d["cache"], d["width"], d["seekpos"], d["ops"])
             b = run_image_iter(d["n"], d["rep"], ["b", 0], d["width"], d["seekpos"], d["ops"])
             return a + " || " + b
+        if op == "draw":
+            return run_draw_real(d["n"], d["loops"], d["cache"], d["m"])[0]
         if op == "decision":
             n, loops, cache = d["n"], d["loops"], d["cache"]
             cval = bool(cache[1]) if cache[0] == "b" else cache[1]
@@ -347,6 +418,8 @@ class C09(Property):
             if not valid_cache(d["cfg"]["cache"]):
                 return None  # the statement is about `cache` arguments the constructor accepts
             return self.judge_pair(d["cfg"], d["ops"], shrink=True)
+        if op == "draw":
+            return draw_verdict(d, impl_result)
         if op == "ipair":
             if not valid_cache(d["cache"]):
                 return None
@@ -403,6 +476,17 @@ class C09(Property):
                         if f and f.key not in seen:
                             seen.add(f.key)
                             out.append(f)
+        for n in (2, 3, 4):
+            for loops in (-1, -2, 1, 2, 3):
+                for cache in (["b", 1], ["n", n], ["n", n + 1], ["n", 100]):
+                    for m in (2 * n, 3 * n + 1):
+                        d = {"n": n, "loops": loops, "cache": cache, "m": m}
+                        case = Case(f"draw {n} {loops} {toks(cache)} {m}", d, "search")
+                        f = draw_verdict(d, run_draw_real(n, loops, cache, m)[0])
+                        if f and f.key not in seen:
+                            seen.add(f.key)
+                            f.case = case
+                            out.append(f)
         for n in (2, 3):
             for wseq in ([2, 3], [3, 2, 3], [4, 4, 2]):
                 ops = [["next"]] * (n + 1)
@@ -425,6 +509,29 @@ class C09(Property):
         ev["coverage"]["render_size_hashes_seen"] = len(HASHES)
         ev["coverage"]["hash_injective_on_sizes_met"] = True  # expect_table() raises otherwise
         return fails
+
+
+def draw_verdict(d, impl_result):
+    """the property on the real drawing path: when the `cache` argument enables caching for the source
+    (documented rule: `True`, or an integer >= frame_count) no frame index is rendered twice during one
+    draw() — whatever the loop count (negative = infinite included; with loops == 1 no frame is
+    revisited in the first place)"""
+    if not impl_result.startswith("ok "):
+        return None
+    n, loops, cache = d["n"], d["loops"], d["cache"]
+    enabling = (cache[0] == "b" and cache[1] == 1) or (cache[0] == "n" and cache[1] >= n)
+    if not enabling:
+        return None
+    counts = [int(x) for x in impl_result[3:].split(" # ")[0].split()]
+    worst = max(range(n), key=lambda k: counts[k])
+    if counts[worst] > 1:
+        lk = "infinite" if loops < 0 else str(loops)
+        return Failure(f"draw/rerender/loops-{'negative' if loops < 0 else loops}",
+                       f"draw(loops={loops}, cache={'True' if cache[0] == 'b' else cache[1]}) of a {n}-frame animation "
+                       f"({lk} looping, interrupted at sleep #{d['m']}): caching is requested and applies "
+                       f"(frame_count={n}), settings never changed, yet `_render_` was called {counts} times per frame "
+                       f"(frame {worst}: {counts[worst]}x)")
+    return None
 
 
 def valid_cache(cache) -> bool:
